@@ -255,6 +255,7 @@ def run(ctx):
     nviol = 0
     nfinding = 0
     pred_fail_idx = set()
+    seen_findings = set()
     for idx, c in enumerate(rows):
         k = c["kind"]
         finding = None
@@ -277,6 +278,10 @@ def run(ctx):
         pred_fail_idx.add(idx)
         if finding:
             nfinding += 1
+            fkey = (finding, k)
+            if fkey in seen_findings:
+                continue
+            seen_findings.add(fkey)
             ctx.violation("impl_violates_predicate", "C18_start_above_end_refuted",
                           {"case": c, "fails": fails[:8], "class": finding},
                           signature="%s (%s) kind=%s" % (FINDING_SIG, finding, k))
